@@ -217,7 +217,9 @@ var entries = []string{"provider", "legacy", "direct"}
 
 // value deviations of one parameter
 var pdevQuick = []string{"ok", "missing", "empty", "dup", "dup-rev", "10k", "badutf8", "nul", "pct", "neg", "x",
-	"jwt-null", "jwt-audnum", "jwt-arr", "opaque-at", "jwt-at", "id-token", "refresh", "garbage3"}
+	"jwt-null", "jwt-audnum", "jwt-arr", "opaque-at", "jwt-at", "id-token", "refresh", "garbage3",
+	// well-formed for the outer layer, malformed for the inner one (see tokalpha_test.go for the full alphabet)
+	"raw16", "sealed-empty", "sealed-x:y:z", "dots2", "jwt-hdr-notjson"}
 var pdevThorough = append(append([]string{}, pdevQuick...), "jwt-str", "jwt-exp-str", "jwt-none-alg", "space", "plus", "other-client", "1mb")
 
 var grantAlts = []string{"default", gtCode, gtRefresh, gtCC, gtBearer, gtTE, gtDevice, "implicit", "password",
@@ -263,7 +265,10 @@ var extras = []extraT{
 
 var authAlts = []string{"default", "absent", "basic-web", "basic-pct-user", "basic-pct-pass", "basic-notb64", "basic-nocolon",
 	"basic-empty", "basic-unknown", "basic-wrongpw", "bearer-at", "bearer-atjwt", "bearer-garbage", "bearer-jwtnull", "bearer-jwtaudnum",
-	"bearer-empty", "two-headers", "lowercase-bearer"}
+	"bearer-empty", "two-headers", "lowercase-bearer",
+	// outer layer fine (scheme + base64 / token68), inner layer not
+	"basic-3parts", "basic-empty-user", "basic-empty-pass", "basic-badutf8", "basic-nul", "basic-10k", "basic-urlsafe-b64", "basic-novalue",
+	"bearer-raw16", "bearer-sealed-empty", "bearer-sealed-x", "bearer-dots2", "bearer-bearer", "bearer-nospace", "digest"}
 
 var methodAlts = []string{"default", "GET", "POST", "PUT", "HEAD", "OPTIONS", "DELETE"}
 var ctypeAlts = []string{"form", "json", "none", "multipart", "multipart-noboundary", "form-charset"}
@@ -367,6 +372,17 @@ func (p *prepT) pvalue(dev, name, valid string) []string {
 		return []string{p.vals["$rtjwt"]}
 	case "garbage3":
 		return []string{"a.b.c"}
+	case "raw16":
+		return []string{b64b(fill("prng-a", 16))}
+	case "sealed-empty":
+		return []string{seal("")}
+	case "sealed-x:y:z":
+		return []string{seal("x:y:z")}
+	case "dots2":
+		return []string{".."}
+	case "jwt-hdr-notjson":
+		_, pl, sg := split3(p.vals["$atjwt"])
+		return []string{b64("notjson") + "." + pl + "." + sg}
 	}
 	return []string{p.special(dev)}
 }
@@ -623,6 +639,38 @@ func (p *prepT) buildRequest(c reqCase) *http.Request {
 		auth = []string{"Bearer "}
 	case "lowercase-bearer":
 		auth = []string{"bearer " + p.vals["$at"]}
+	case "basic-3parts":
+		auth = []string{raw("web:" + web.Secret + ":x")}
+	case "basic-empty-user":
+		auth = []string{raw(":" + web.Secret)}
+	case "basic-empty-pass":
+		auth = []string{raw("web:")}
+	case "basic-badutf8":
+		auth = []string{raw("we\xffb:\xfe\xc0")}
+	case "basic-nul":
+		auth = []string{raw("web\x00:sec\x00ret")}
+	case "basic-10k":
+		auth = []string{raw(strings.Repeat("u", 10240) + ":" + strings.Repeat("p", 10240))}
+	case "basic-urlsafe-b64":
+		auth = []string{"Basic " + base64.RawURLEncoding.EncodeToString([]byte("web:"+web.Secret+"?>~"))}
+	case "basic-novalue":
+		auth = []string{"Basic"}
+	case "bearer-raw16":
+		auth = []string{"Bearer " + b64b(fill("prng-a", 16))}
+	case "bearer-sealed-empty":
+		auth = []string{"Bearer " + seal("")}
+	case "bearer-sealed-x":
+		auth = []string{"Bearer " + seal("x")}
+	case "bearer-dots2":
+		auth = []string{"Bearer .."}
+	case "bearer-bearer":
+		auth = []string{"Bearer Bearer " + p.vals["$at"]}
+	case "bearer-nospace":
+		auth = []string{"Bearer" + p.vals["$at"]}
+	case "digest":
+		auth = []string{`Digest username="web", realm="op", nonce="n", uri="/", response="00"`}
+	default:
+		panic("c09: no auth alternative " + c.auth)
 	case "two-headers":
 		auth = append(p.authHeader(c.ep.auth), rig.Basic("web2", "secret-web2"), "Bearer "+p.vals["$at"])
 	}
